@@ -41,13 +41,6 @@ def ok : Outcome → Bool
   | _ => true
 def name : Outcome → String
   | .pass => "pass" | .skipped => "skipped" | .warned => "warned" | .raised => "raised"
-/-- sequencing of two checks in one function body: the first `raised` wins, then `warned` -/
-def seq (a b : Outcome) : Outcome :=
-  match a with
-  | .raised => .raised
-  | .pass => b
-  | .skipped => b
-  | .warned => (match b with | .raised => .raised | _ => .warned)
 end Outcome
 
 /-- kcals / fat / protein series of one `Food` -/
@@ -322,6 +315,27 @@ def feedZeroIfStarving (fl : Flags) (percentFed : α) (biofuels feeds : List (Li
 def round3NotLowerThanRound1 (minPercent p1 p3 eps : α) : Outcome :=
   if p3 ≤ minPercent - 0.1 then (if p1 ≤ p3 + eps then .pass else .warned)
   else .skipped
+
+/-! ## the default tolerances of the signatures
+
+The harness calls the real validators both with explicit tolerances and without (as the pipeline does); in the second
+case the model is given THESE values, so a changed default in the code shows up as a difference. -/
+
+/-- `(method.parameter, default)`; `check_constraints_satisfied.tolerance` is the literal `1` of its three asserts -/
+def defaults : List (String × α) :=
+  [ ("assert_population_not_increasing.epsilon", 1e-1),
+    ("assert_round2_meat_and_population_greater_than_round1.epsilon", 1e-2),
+    ("assert_round2_meat_and_population_greater_than_round1.small_number", 100.0),
+    ("verify_minimum_food_consumption_sum_round2.epsilon", 1e-4),
+    ("verify_food_usage_priorities_round2.epsilon", 1e-4),
+    ("assert_meat_dairy_doesnt_decrease_round_2.epsilon", 1e-2),
+    ("assert_fewer_calories_round2_than_round3.epsilon", 1e-1),
+    ("assert_fewer_calories_round2_than_round3.absepsilon", 1e-1),
+    ("assert_feed_used_below_feed_demand.epsilon", 1e-4),
+    ("assert_biofuels_used_below_biofuels_demand.epsilon", 1e-4),
+    ("assert_feed_used_round3_below_feed_used_round2.epsilon", 1e-4),
+    ("assert_round3_percent_fed_not_lower_than_round1.epsilon", 1),
+    ("check_constraints_satisfied.tolerance", 1) ]
 
 end
 end Allfed.Validators
